@@ -344,6 +344,8 @@ def nest_strategy(tier):
             "coreOrigin": st.one_of(st.none(), st.tuples(st.floats(-100, 100), st.floats(-100, 100), st.floats(-100, 100)).map(list)),
             "midFree": st.one_of(st.none(), st.tuples(st.floats(-5, 5), st.floats(-5, 5), st.floats(0, 5)).map(list)),
             "depth": st.integers(1, 3),
+            # axial grid of the assembly given by bounds (None) or by a regular step h through unitSteps/unitStepLimits/offset
+            "axStep": st.one_of(st.none(), st.none(), st.floats(0.1, 60.0)),
             "boffset": st.one_of(st.none(), st.tuples(st.floats(-50, 50), st.floats(-50, 50), st.floats(-50, 50)).map(list)),
             "trz": st.fixed_dictionaries({"theta": st.integers(1, 8), "r": _bounds(2, 6), "z": _bounds(2, 5), "cell": st.tuples(st.integers(0, 7), st.integers(0, 4), st.integers(0, 3)).map(list)}),
         }
@@ -465,7 +467,21 @@ def nest_execute(case):
     g1 = assem.spatialLocator.getGlobalCoordinates()
     out.check(_close(g1, a_xyz, tol), "nest/depth1-global", lambda: "assembly at %s expected %s" % (list(g1), list(a_xyz)))
     if depth >= 2:
-        assem.spatialGrid = grids.AxialGrid(bounds=(None, None, np.array(zb)), armiObject=assem)
+        h = case.get("axStep")
+        if h is not None and len(zb) >= 3:
+            # (a step-defined grid with a single cell in every direction cannot be told from a radial one: armi calls a grid
+            # axial-only when it has one cell in i and j and MORE than one in k; such stacks are described by bounds instead)
+            # the same kind of stack described by a regular step: cell k spans [k*h, (k+1)*h]
+            out.label("axial-by-steps")
+            zb = [h * n for n in range(len(zb))]
+            assem.spatialGrid = grids.AxialGrid(unitSteps=((0, 0, 0), (0, 0, 0), (0, 0, h)), unitStepLimits=((0, 1), (0, 1), (0, len(zb) - 1)),
+                                                offset=(0.0, 0.0, h / 2.0), armiObject=assem)
+            out.check(assem.spatialGrid.isAxialOnly, "nest/step-axial-grid-not-axial-only", "a grid with one cell in i and j and several in k is axial-only")
+            rb = grids.AxialGrid(*assem.spatialGrid.reduce())
+            out.check(rb.isAxialOnly and _close(rb.getCoordinates((0, 0, k)), assem.spatialGrid.getCoordinates((0, 0, k)), tol),
+                      "nest/step-axial-grid-rebuild", "rebuilt step-defined axial grid differs")
+        else:
+            assem.spatialGrid = grids.AxialGrid(bounds=(None, None, np.array(zb)), armiObject=assem)
         block = composites.Composite("block")
         assem.add(block)
         block.spatialLocator = assem.spatialGrid[0, 0, k]
@@ -529,6 +545,6 @@ PARTS = [
               "complete, affine centres/base/top, least ring count, reduce() rebuild, changePitch; non-trivial = shell >= 2",
          bound=lambda t: "shells <= %d, both centre styles" % _CART_N[t]),
     Part("bounds_nesting", nest_execute, strategy=nest_strategy, budget={"quick": 1200, "thorough": 40000}, procs={"quick": 4, "thorough": 16},
-         rule="Hypothesis: axial and theta-R-Z bounds, nestings core/assembly/block/pin up to three deep with indexed or free intermediate "
+         rule="Hypothesis: axial (bounds- or step-defined) and theta-R-Z bounds, nestings core/assembly/block/pin up to three deep with indexed or free intermediate "
               "locations; global = sum of local coordinates, indices add only for axial-in-radial; non-trivial = depth >= 2"),
 ]
